@@ -196,6 +196,19 @@ def _cp_axes(spec, n, d):
 
 def body_composite(case, ctx):
     """labels, bounds and parameter counts of a composite are those of its components, concatenated in order"""
+    if case.get("user_bounds") and case["kernel"]["k"] == "Sum":
+        # some components of a sum carry bounds specified by the user (in the documented form of their class)
+        g = np.random.Generator(np.random.PCG64(int(case["user_bounds"])))
+        case = dict(case)
+        parts = []
+        for p in case["kernel"]["parts"]:
+            p = dict(p)
+            if p["k"] in ("SE", "RQ", "White") and g.random() < 0.6:
+                k = {"SE": case["d"] + 1, "RQ": case["d"] + 2, "White": 1}[p["k"]]
+                lo = g.uniform(-6, 0, size=k)
+                p["ub"] = [[float(a), float(a + w)] for a, w in zip(lo, g.uniform(0.5, 6, size=k))]
+            parts.append(p)
+        case["kernel"] = dict(case["kernel"], parts=parts)
     X, y, xs, ys, spec, cov, theta = setup(case)
     d, n = case["d"], case["n"]
     cls = classify(spec, d)
@@ -215,7 +228,9 @@ def body_composite(case, ctx):
             with np.errstate(all="ignore"):
                 c.estimate_hyperpar_bounds(y)
             exp_labels.extend(c.hyperpar_labels)
-            exp_bounds.extend(tuple(b) for b in c.bounds)
+            exp_bounds.extend((tuple(b) for b in p["ub"]) if p.get("ub") else (tuple(b) for b in c.bounds))
+            if p.get("ub"):
+                ctx.event("component-with-user-bounds:" + p["k"])
         m = len(exp_labels)
         for got, exp in zip(labels[:m], exp_labels):
             if not got.endswith(exp):
@@ -402,8 +417,15 @@ def problems2(tier):
     return _with_earlier_data(gc.gp_problems(max_n=10, max_d=3, max_m=1, min_n=2))
 
 
+@st.composite
+def _with_user_bounds(draw, base):
+    case = draw(base)
+    case["user_bounds"] = draw(st.sampled_from([0, 0, draw(st.integers(1, 10**6))]))
+    return case
+
+
 def problems3(tier):
-    return gc.gp_problems(max_n=12, max_d=3, max_m=1, min_n=4)
+    return _with_user_bounds(gc.gp_problems(max_n=12, max_d=3, max_m=1, min_n=4))
 
 
 SUBCHECKS = [
